@@ -608,7 +608,7 @@ EXTRA = {
     "C29": "C29.open-bindings interprets the loop over the open-like bindings with the real modules: builtins.open, io.open, Path.open and os.open are all replaced.",
     "C30": "C30.sink is interpreted with filesystem isolation active (the builtin open refuses /dev/null) when the executor enters the isolation first; C30.tracked (must-pass): every seeded Random instance is registered for reseeding.",
     "C31": "C31.aux: every executor the subprocess executor builds for itself receives this executor's module provider and time bounds.",
-    "C32": "C32.proxy: single-call methods of the tracer proxy forward to the wrapped method of the same name; C32.namespace: the namespace dict of an execution is created per call and not kept on the executor.",
+    "C32": "C32.proxy: single-call methods of the tracer proxy forward to the wrapped method of the same name; C32.namespace: the namespace dict of an execution is created per call and not kept on the executor; C32.bounds: every executor the pipeline builds is given the configured time bounds.",
     "C33": "C33.monotonic: a worker's running time is measured on a monotonic clock (a wall-clock step back would raise the restarted worker's budget).",
     "C34": "C34.edges: issubset against str / bytes / dict operands counts the elements they yield; the constructor keeps the elements of a falsy iterable.",
     "C35": "C35.html: the lexer the HTML template instantiates yields one highlighted line per source line (evaluated with the repository's pygments); C35.regular-result: the result returned by the type-tracing executor is never the proxied execution's.",
